@@ -197,6 +197,50 @@ func TestVerifArgConv(t *testing.T) {
 			}
 		}
 	}
+	// a VARIADIC parameter and several conditions: every condition of one call must see the caller's arguments as they were
+	// passed (the k-th registered condition is compared after k-1 others have looked at the same argument list)
+	type varPar struct {
+		name string
+		fn   interface{}
+		vals []interface{}
+	}
+	p1, p2, p3 := &conv.S{1, "a"}, &conv.S{2, "b"}, &conv.S{3, "c"}
+	for _, k := range []varPar{{"int", conv.PVInt, []interface{}{5, 6, 7}}, {"string", conv.PVStr, []interface{}{"ab", "cd", "ef"}},
+		{"ptr", conv.PVPtr, []interface{}{p1, p2, p3}}} {
+		for nargs := 1; nargs <= 2; nargs++ {
+			b := mocker.Create()
+			outcome := "same"
+			p := catch(func() {
+				wh := b.Func(k.fn).Return(9000)
+				for i, v := range k.vals {
+					cond := []interface{}{v}
+					if nargs == 2 {
+						cond = append(cond, k.vals[0])
+					}
+					wh = wh.When(cond...).Return(9001 + i)
+				}
+				for i := len(k.vals) - 1; i >= 0; i-- {
+					T := reflect.TypeOf(k.fn).In(0).Elem()
+					args := []reflect.Value{reflect.ValueOf(k.vals[i]).Convert(T)}
+					if nargs == 2 {
+						args = append(args, reflect.ValueOf(k.vals[0]).Convert(T))
+					}
+					if r := reflect.ValueOf(k.fn).Call(args)[0].Int(); r != int64(9001+i) {
+						outcome = fmt.Sprintf("wrong-condition-%d-not-selected(got %d)", i+1, r)
+						break
+					}
+				}
+			})
+			if p != "" {
+				outcome = "panic:" + p
+				if len(outcome) > 90 {
+					outcome = outcome[:90]
+				}
+			}
+			catch(func() { b.Reset() })
+			emit(k.name, "val", fmt.Sprintf("when-variadic-%d-elements", nargs), outcome)
+		}
+	}
 	// selectivity of conditions written as plain constants (type int) on integer parameters of other kinds: the value
 	// is compared as a value of the declared type, exactly - it matches itself and not its neighbours, however large
 	type intPar struct {
